@@ -19,12 +19,23 @@ N_eac   == <<195, 169>>                                                    \* e-
 N_hira  == <<227, 129, 130>>                                               \* HIRAGANA A, UTF-8
 N_doth  == <<46, 104>>                                                     \* .h
 
-NamesQuick == {N_m, N_game, N_ab, N_atE, N_ddx, N_sp}
-NamesThorough == NamesQuick \cup {N_sx, N_eac, N_hira, N_doth}
+\* unusual but legal bytes of a Unix file name: nothing but '/' and NUL is special
+N_bsg   == <<71, 97, 109, 101, 92, 68, 97, 116, 97, 46, 98, 105, 110, 46, 108, 122>>  \* Game\Data.bin.lz  (a backslash)
+N_bs    == <<92>>                                                          \* \   (a lone backslash)
+N_tdot  == <<120, 46>>                                                     \* x.   (trailing dot)
+N_eu    == <<101, 95>>                                                     \* e_   (equal to a prefix marker)
+N_S     == <<83>>                                                          \* S    (equal to FE13's Spanish directory)
+N_ux    == <<95, 120>>                                                     \* _x
+N_at    == <<64>>                                                          \* @
+N_long  == [k \in 1..200 |-> 97 + (k % 26)]                                \* 200 bytes
+
+NamesQuick == {N_m, N_game, N_ab, N_atE, N_ddx, N_sp, N_bsg, N_bs, N_tdot, N_eu, N_eac, N_long}
+NamesThorough == NamesQuick \cup {N_sx, N_hira, N_doth, N_S, N_ux, N_at}
 Names == IF Tier = "quick" THEN NamesQuick ELSE NamesThorough
 
-Dirs2 == IF Tier = "quick" THEN { <<N_m, N_atE>>, <<N_ab, N_m>>, <<N_sp, N_game>>, <<N_ddx, N_sp>> }
-         ELSE { <<a, b>> : a, b \in NamesQuick }
+DirsBase == {N_m, N_game, N_ab, N_atE, N_ddx, N_sp}
+Dirs2 == IF Tier = "quick" THEN { <<N_m, N_atE>>, <<N_ab, N_m>>, <<N_sp, N_game>>, <<N_ddx, N_sp>>, <<N_bs, N_m>>, <<N_m, N_bsg>> }
+         ELSE { <<a, b>> : a, b \in DirsBase } \cup { <<N_bs, N_m>>, <<N_m, N_bsg>>, <<N_long, N_tdot>>, <<N_eu, N_S>> }
 Dirs3 == { <<N_m, N_ab, N_atE>>, <<N_sp, N_m, N_sp>> }
 
 Rel(c, t) == [a |-> FALSE, c |-> c, t |-> t]
